@@ -479,6 +479,7 @@ def run(ctx):
     P("srt._srttomicro", srt_stamp, functions=[SRTReader._srttomicro])
     import props.C01_read as RS
     RS.prove_srt_read_skeleton(ctx)
+    RS.prove_webvtt_read_skeleton(ctx)    # (cue i has the times and layout of its own timing line; the ordering test sees the previous start)
     RS.prove_microdvd_read_skeleton(ctx)  # (every cue at the rate in force at its own line; a new document at the default rate)       # (every block's stamps converted once; cue i gets the numbers of block i)
     P("webvtt.microseconds", webvtt_microseconds, functions=[webvtt_mod.microseconds])
     P("webvtt._parse_timestamp", webvtt_stamp, functions=[WebVTTReader._parse_timestamp])
